@@ -24,6 +24,7 @@ type GhostEntry struct {
 }
 
 type CEnv struct {
+	spec   *FuncSpec
 	x      *Exec
 	st     *State
 	old    *State // entry state (for old()); nil inside requires
@@ -222,6 +223,23 @@ func (c *CEnv) ident(name string) cv {
 		// pointer parameters: dereference lazily in sel; heap state depends on old/current
 		return v
 	}
+	if c.spec != nil {
+		for _, l := range c.spec.Lets {
+			if l.Name == name {
+				return c.eval(l.Expr)
+			}
+		}
+	}
+	if c.x.root != nil && c.x.root != c.spec {
+		for _, l := range c.x.root.Lets {
+			if l.Name == name {
+				return c.eval(l.Expr)
+			}
+		}
+	}
+	if m, ok := c.x.specs.macros[name]; ok {
+		return c.eval(m)
+	}
 	// locals by name in frames (innermost first)
 	for i := len(c.frames) - 1; i >= 0; i-- {
 		if v, ok := c.localByName(c.frames[i], name); ok {
@@ -405,6 +423,10 @@ func (c *CEnv) sel(v cv, field string) cv {
 		case "v":
 			raw := T{S: fmt.Sprintf("(someval %s)", x.Opt.S), So: SString}
 			return c.x.decodeValue(st, x.Fam, raw)
+		case "dec":
+			// what the getters decode: the value, or the decoding of empty bytes when absent
+			raw := Ite(T{S: fmt.Sprintf("((_ is some) %s)", x.Opt.S), So: SBool}, T{S: fmt.Sprintf("(someval %s)", x.Opt.S), So: SString}, T{S: `""`, So: SString})
+			return c.x.decodeValue(st, x.Fam, raw)
 		case "n":
 			// numeric reading used by the u64 getters: 0 when absent or empty
 			raw := T{S: fmt.Sprintf("(someval %s)", x.Opt.S), So: SString}
@@ -416,6 +438,10 @@ func (c *CEnv) sel(v cv, field string) cv {
 		pt, ok := v.T.Underlying().(*types.Pointer)
 		if !ok {
 			c.fail("pointer value without pointer type")
+		}
+		if _, live := st.Heap[x.Obj]; !live {
+			// nil pointer in a specification context: an arbitrary value (the clause must guard it)
+			return c.sel(cv{V: c.x.e.freshVal(st, "nilderef", pt.Elem()), T: pt.Elem()}, field)
 		}
 		inner := c.x.e.load(st, x)
 		return c.sel(cv{V: inner, T: pt.Elem()}, field)
@@ -495,6 +521,17 @@ func (c *CEnv) sel(v cv, field string) cv {
 	}
 	c.fail("cannot select .%s on %T", field, v.V)
 	return cv{}
+}
+
+// iteByPC: ite simplified by a literal of the current path condition.
+func (c *CEnv) iteByPC(cond, a, b T) T {
+	if pcHas(c.st, cond) {
+		return a
+	}
+	if pcHas(c.st, Not(cond)) {
+		return b
+	}
+	return Ite(cond, a, b)
 }
 
 func shortTypeNameNoPkg(t types.Type) string {
@@ -631,9 +668,20 @@ var specUFs = map[string]ufSig{
 	"hasprice":   {[]string{"String"}, "Bool"},
 	"itkey":      {[]string{"Int", "Int"}, "Key"},
 	"eventhash":  {[]string{"Dyn"}, "String"},
+	"chainok":    {[]string{"String"}, "Bool"},
+	"holderRate": {[]string{"Slc_String", "Int"}, "Int"},
+	"tiDenom":    {[]string{"Slc_S_types_TokenInfo", "String", "String"}, "S_types_TokenInfo"},
+	"hasDenom":   {[]string{"Slc_S_types_TokenInfo", "String", "String"}, "Bool"},
+	"tiExt":      {[]string{"Slc_S_types_TokenInfo", "String", "String"}, "S_types_TokenInfo"},
+	"hasExt":     {[]string{"Slc_S_types_TokenInfo", "String", "String"}, "Bool"},
+	"tiId":       {[]string{"Slc_S_types_TokenInfo", "Int"}, "S_types_TokenInfo"},
+	"hasId":      {[]string{"Slc_S_types_TokenInfo", "Int"}, "Bool"},
+	"storeindex": {[]string{"Dyn", "String"}, "String"},
 }
 
 var constSpec = map[string]T{
+	"moduleAddr": StrLit("module:mhub2"),
+	"e18":        {S: "1000000000000000000", So: SInt},
 	"MaxUint32": IntLit(4294967295),
 	"two64":     BigLit(two64),
 	"two256":    BigLit(new(big.Int).Lsh(big.NewInt(1), 256)),
@@ -746,6 +794,45 @@ func (c *CEnv) callFn(e *Expr) cv {
 		c.fail("sum() is not supported; use explicit ghost accumulators")
 	}
 	switch name {
+	case "mk":
+		// mk(TypeName, field values in declaration order): a message value
+		if e.Args[0].Op != "id" {
+			c.fail("mk: first argument must be a type name")
+		}
+		t := c.x.e.msgTypeByName(e.Args[0].Val)
+		so := c.x.e.sortOf(t)
+		fs := c.x.e.dtFields[so]
+		if len(fs) != len(e.Args)-1 {
+			c.fail("mk(%s) takes %d fields, got %d", e.Args[0].Val, len(fs), len(e.Args)-1)
+		}
+		var args []T
+		for i, a := range e.Args[1:] {
+			at := c.term(a)
+			if at.So != fs[i].Sort {
+				c.fail("mk(%s): field %s has sort %s, want %s", e.Args[0].Val, fs[i].Name, at.So, fs[i].Sort)
+			}
+			args = append(args, at)
+		}
+		return cv{V: app(so, "mk_"+so, args...), T: t}
+	case "list":
+		// list(a, b, ...): a slice value with exactly these elements
+		var els []T
+		for _, a := range e.Args {
+			els = append(els, c.term(a))
+		}
+		if len(els) == 0 {
+			c.fail("list() needs at least one element")
+		}
+		es := els[0].So
+		so := c.x.e.sliceSort(es)
+		cur := c.x.e.baseArray(es)
+		for i, el := range els {
+			cur = T{S: fmt.Sprintf("(store %s %d %s)", cur.S, i, el.S), So: cur.So}
+		}
+		return cv{V: T{S: fmt.Sprintf("(mk_%s %s %d)", so, cur.S, len(els)), So: so}}
+	case "strip0x":
+		s := c.term(e.Args[0])
+		return cv{V: Ite(And(Gt(StrLen(s), IntLit(2)), Eq(app(SString, "str.substr", s, IntLit(0), IntLit(2)), StrLit("0x"))), app(SString, "str.substr", s, IntLit(2), Sub(StrLen(s), IntLit(2))), s)}
 	case "asdyn":
 		v := c.eval(e.Args[0])
 		if v.T == nil {
@@ -800,12 +887,41 @@ func (c *CEnv) callFn(e *Expr) cv {
 		s := c.term(e.Args[0])
 		c.x.e.declareFun("uf_bech32valok", "(String) Bool")
 		c.x.e.declareFun("uf_valFromBech32", "(String) String")
-		return cv{V: Ite(app(SBool, "uf_bech32valok", s), app(SString, "uf_valFromBech32", s), T{S: `""`, So: SString})}
+		return cv{V: c.iteByPC(app(SBool, "uf_bech32valok", s), app(SString, "uf_valFromBech32", s), T{S: `""`, So: SString})}
 	case "accOf":
 		s := c.term(e.Args[0])
 		c.x.e.declareFun("uf_bech32ok", "(String) Bool")
 		c.x.e.declareFun("uf_accFromBech32", "(String) String")
-		return cv{V: Ite(app(SBool, "uf_bech32ok", s), app(SString, "uf_accFromBech32", s), T{S: `""`, So: SString})}
+		return cv{V: c.iteByPC(app(SBool, "uf_bech32ok", s), app(SString, "uf_accFromBech32", s), T{S: `""`, So: SString})}
+	}
+	// parametric lets of the function's own contract
+	for _, sp := range []*FuncSpec{c.spec, c.x.root} {
+		if sp == nil {
+			continue
+		}
+		for _, l := range sp.Lets {
+			if l.Name == name && len(l.Params) == len(e.Args) && len(l.Params) > 0 {
+				saved := map[string]*T{}
+				for i, p := range l.Params {
+					if old, ok := c.bound[p]; ok {
+						o := old
+						saved[p] = &o
+					} else {
+						saved[p] = nil
+					}
+					c.bound[p] = c.term(e.Args[i])
+				}
+				r := c.eval(l.Expr)
+				for p, o := range saved {
+					if o == nil {
+						delete(c.bound, p)
+					} else {
+						c.bound[p] = *o
+					}
+				}
+				return r
+			}
+		}
 	}
 	sig, ok := specUFs[name]
 	if !ok {
@@ -851,6 +967,13 @@ func (x *Exec) useSpecAxioms() {
 		return
 	}
 	x.axiomsLoaded = true
+	for _, sig := range x.specs.specFns {
+		for _, so := range append(append([]string{}, sig.Args...), sig.Res) {
+			if strings.HasPrefix(so, "Slc_") {
+				x.e.sliceSort(so[4:])
+			}
+		}
+	}
 	for name, sig := range x.specs.specFns {
 		x.e.declareFun("uf_"+name, "("+strings.Join(sig.Args, " ")+") "+sig.Res)
 	}
@@ -866,7 +989,7 @@ func (x *Exec) useSpecAxioms() {
 // Building environments.
 
 func (x *Exec) envFor(st *State, old *State, fr *Frame, result Val) *CEnv {
-	c := &CEnv{x: x, st: st, old: old, names: map[string]cv{}, bound: map[string]T{}}
+	c := &CEnv{x: x, st: st, old: old, names: map[string]cv{}, bound: map[string]T{}, spec: fr.spec}
 	c.frames = st.Frames
 	fn := fr.fn
 	for i, p := range fn.Params {
@@ -886,6 +1009,9 @@ func (x *Exec) envFor(st *State, old *State, fr *Frame, result Val) *CEnv {
 		default:
 			if tv, ok := result.(*TupleV); ok {
 				c.names["result"] = cv{V: tv, T: res}
+				if res.Len() == 2 && isErrorType(res.At(1).Type()) {
+					c.names["result"] = cv{V: tv.Vs[0], T: res.At(0).Type()}
+				}
 				for i := 0; i < res.Len(); i++ {
 					r := cv{V: tv.Vs[i], T: res.At(i).Type()}
 					c.names[fmt.Sprintf("result%d", i)] = r
@@ -919,10 +1045,7 @@ func (x *Exec) evalClause(c *CEnv, cl *Clause) (t T) {
 }
 
 func (x *Exec) applyLets(c *CEnv, spec *FuncSpec) {
-	for _, l := range spec.Lets {
-		v := c.eval(l.Expr)
-		c.names[l.Name] = v
-	}
+	c.spec = spec // lets are macros: evaluated where they are used (so old(h) evaluates h in the old state)
 }
 
 func (x *Exec) checkInvariant(st *State, fr *Frame, lr *loopRun, kind string) {
@@ -966,7 +1089,12 @@ func (x *Exec) applyContract(st *State, fr *Frame, ci *callInfo, fn *ssa.Functio
 	// havoc: ghost state in modifies (or all), heap objects reachable from pointer args (unless pure)
 	if !spec.Pure {
 		mods := spec.Modifies
-		all := !spec.ModSet
+		all := false
+		if !spec.ModSet {
+			// no explicit frame: use the inferred write set (effect analysis over the call graph)
+			mods = effects.of(fn).list()
+			x.e.note("callees without a modifies clause are framed by the inferred write set (call-graph effect analysis)")
+		}
 		for w := range st.Worlds {
 			if w != x.worldOfArgs(args) && !all {
 				continue
@@ -1006,17 +1134,45 @@ func (x *Exec) applyContract(st *State, fr *Frame, ci *callInfo, fn *ssa.Functio
 	// fresh result
 	var result Val
 	res := fn.Signature.Results()
+	var defined Val
+	var definedNil *T
+	if spec.ResultIs != nil {
+		// definitional result: the spec term itself (no fresh constant), so that callers and contracts share it
+		cdef := x.envFor(st, pre, callee, nil)
+		cdef.frames = nil
+		x.applyLets(cdef, spec)
+		dt := cdef.term(spec.ResultIs.Expr)
+		rt := res.At(0).Type()
+		if dt.So != x.e.sortOf(rt) {
+			x.fail("result-is of %s has sort %s, want %s", spec.Name, dt.So, x.e.sortOf(rt))
+		}
+		defined = x.e.reflect(st, dt, rt)
+		x.e.note("definitional result (assumed at call sites): " + spec.Name + " returns " + spec.ResultIs.Src)
+		_ = definedNil
+	}
 	mk := func(t types.Type, hint string) Val {
 		return x.havocValLike(st, x.tryZero(st, t), hint, t)
 	}
 	switch res.Len() {
 	case 0:
 	case 1:
-		result = mk(res.At(0).Type(), "res_"+fn.Name())
+		if defined != nil {
+			result = defined
+		} else {
+			result = mk(res.At(0).Type(), "res_"+fn.Name())
+		}
 	default:
 		tv := &TupleV{}
 		for i := 0; i < res.Len(); i++ {
 			tv.Vs = append(tv.Vs, mk(res.At(i).Type(), fmt.Sprintf("res%d_%s", i, fn.Name())))
+		}
+		if defined != nil {
+			if ev, ok := tv.Vs[res.Len()-1].(*ErrV); ok {
+				if pv, ok := defined.(*PtrV); ok {
+					pv.Nil = Not(ev.IsNil)
+				}
+			}
+			tv.Vs[0] = defined
 		}
 		result = tv
 	}
